@@ -61,8 +61,12 @@ func (e *establishLinkHandler) HandleValueAdded(inst directive.Instance, val dir
 			WithField("link-uuid", vl.GetLinkUUID()).
 			WithField("local-peer", vl.GetLocalPeer().String()).
 			Debug("starting peer hold-open tracking")
+		verifGate("acquire.spawn")
 		go func() {
+			verifGate("acquire")
+			defer verifGate("acquire.done")
 			e.mtx.Lock()
+			verifGate("acquire.locked")
 			// The links may be gone again, or an earlier call may have
 			// acquired the reference already: re-check under the lock.
 			if e.valCount != 0 && e.rigidRef == nil {
@@ -80,6 +84,7 @@ func (e *establishLinkHandler) HandleValueRemoved(inst directive.Instance, val d
 		e.valCount--
 	}
 	if e.valCount == 0 && e.rigidRef != nil {
+		verifGate("release.spawn")
 		go e.rigidRef.Release()
 		e.rigidRef = nil
 	}
@@ -98,6 +103,7 @@ func (e *establishLinkHandler) HandleInstanceDisposed(inst directive.Instance) {
 	}
 	e.ref = nil
 	if e.rigidRef != nil {
+		verifGate("release.spawn")
 		go e.rigidRef.Release()
 		e.rigidRef = nil
 	}
